@@ -212,6 +212,7 @@ def corpus(rng, quick):
     out.append(S("oversize-branch-task", {"StartAt": "P", "States": {"P": {"Type": "Parallel", "End": True, "Branches": [
         {"StartAt": "T", "States": {"T": T("f1", Next="Z", ResultPath="$.dup"), "Z": {"Type": "Pass", "End": True}}},
         {"StartAt": "B", "States": {"B": T("f2")}}]}}}, big, {"f1": [("ok",)], "f2": [("ok",)]}, {"f1": 10, "f2": 30}))
+    out += [w for w in error_sites() if "finding" not in w.extra or finding_status(w.extra["finding"]) == "fixed"]
     # the witnesses of the fan-out protocol findings, once they are repaired (until then C06 runs them and classifies)
     out += [w for w in fan_witnesses() if finding_status(w.extra["finding"]) == "fixed"]
     # minimised / kept past failures (corpus/engine.json)
@@ -230,6 +231,69 @@ def corpus(rng, quick):
         if fi is not None:
             s.plans = {"g": [("ok",)]}
             s.extra["fail_payload"] = fi
+    return out
+
+
+def error_sites():
+    """every place at which a state handler can fail while it evaluates the state's own fields — an intrinsic function
+    with an ill-typed argument (IF), a path that selects nothing (PM), a ResultPath through a number (RP) — for each handler
+    (Pass, Task before the request and on the reply, Parallel / Map at the launch and at the join, Choice, Wait, Succeed),
+    without and with a Catch that places the Error Output into the raw input, at the top level and (a sample) inside a
+    Parallel branch beside a slow sibling; a Map with MaxConcurrency whose ItemSelector fails on an item of a *later* batch.
+    Each such site has its own `except` arm in the engine that must fail the state (handle_error) and then acknowledge the
+    event: the mutation campaign found arms no scenario reached (MUTATION.md)."""
+    S = explore.Scenario
+    IF, IFR, IFJ = {"v.$": "States.MathAdd($.s, 1)"}, {"v.$": "States.MathAdd($.fn, 1)"}, {"v.$": "States.MathAdd($[0], 1)"}
+    PM, PMJ = {"v.$": "$.nope"}, {"v.$": "$[7].nope"}
+    RP = "$.n.x"
+    data = {"x": 1, "n": 5, "s": "str", "items": [1, "two"]}
+    catch = [{"ErrorEquals": ["States.ALL"], "Next": "R", "ResultPath": "$.e"}]
+    br = lambda: [{"StartAt": "A", "States": {"A": T("f1")}}, {"StartAt": "B", "States": {"B": {"Type": "Pass", "End": True}}}]
+    it = lambda: {"StartAt": "A", "States": {"A": T("f1")}}
+    sites = []                       # (name, state fields, may have a Catch)
+    for kind, f in (("IF", {"Parameters": IF}), ("PM", {"Parameters": PM}), ("RP", {"ResultPath": RP}), ("OP", {"OutputPath": "$.nope"})):
+        sites.append(("pass-" + kind, dict({"Type": "Pass"}, **f), False))
+    for kind, f in (("IF", {"Parameters": IF}), ("PM", {"Parameters": PM})):
+        sites.append(("taskpre-" + kind, dict({"Type": "Task", "Resource": FN + "f1"}, **f), True))
+        sites.append(("parlaunch-" + kind, dict({"Type": "Parallel", "Branches": br()}, **f), True))
+    for kind, f in (("IF", {"ResultSelector": IFR}), ("PM", {"ResultSelector": PM}), ("RP", {"ResultPath": RP}), ("OP", {"OutputPath": "$.nope"})):
+        sites.append(("taskpost-" + kind, dict({"Type": "Task", "Resource": FN + "f1"}, **f), True))
+    for kind, f in (("IF", {"ResultSelector": IFJ}), ("PM", {"ResultSelector": PMJ}), ("RP", {"ResultPath": RP}), ("OP", {"OutputPath": "$.nope"})):
+        sites.append(("parjoin-" + kind, dict({"Type": "Parallel", "Branches": br()}, **f), True))
+        sites.append(("mapjoin-" + kind, dict({"Type": "Map", "ItemsPath": "$.items", "ItemProcessor": it()}, **f), True))
+    sel = {"v.$": "States.MathAdd($$.Map.Item.Value, 1)"}
+    sites.append(("maplaunch-IF", {"Type": "Map", "ItemsPath": "$.items", "ItemSelector": sel, "ItemProcessor": it()}, True))
+    sites.append(("maplaunch-PM", {"Type": "Map", "ItemsPath": "$.nope", "ItemProcessor": it()}, True))
+    sites.append(("maplatebatch-IF", {"Type": "Map", "ItemsPath": "$.items", "MaxConcurrency": 1, "ItemSelector": sel, "ItemProcessor": it()}, True))
+    sites.append(("choice-IP", {"Type": "Choice", "InputPath": "$.nope", "Choices": [{"Variable": "$.x", "NumericEquals": 1, "Next": "Z"}], "Default": "Z"}, False))
+    sites.append(("choice-OP", {"Type": "Choice", "OutputPath": "$.nope", "Choices": [{"Variable": "$.x", "NumericEquals": 1, "Next": "Z"}], "Default": "Z"}, False))
+    sites.append(("wait-IP", {"Type": "Wait", "InputPath": "$.nope", "Seconds": 1}, False))
+    sites.append(("wait-OP", {"Type": "Wait", "OutputPath": "$.nope", "Seconds": 1}, False))
+    sites.append(("wait-SP", {"Type": "Wait", "SecondsPath": "$.nope"}, False))
+    inbranch = ("pass-OP", "taskpost-IF", "taskpost-RP", "maplaunch-IF", "maplatebatch-IF", "parjoin-RP", "mapjoin-PM", "wait-OP")
+    out = []
+    retry = [{"ErrorEquals": ["States.ALL"], "IntervalSeconds": 1, "MaxAttempts": 1}]
+    for name, st, catchable in sites:
+        handlers = (("", {}), ("-catch", {"Catch": catch})) if catchable else (("", {}),)
+        if name == "maplatebatch-IF":
+            handlers += (("-retry", {"Retry": retry}),)
+        for tag, extra in handlers:
+            state = dict(json.loads(json.dumps(st)), **extra)
+            if state["Type"] != "Choice":
+                state["Next"] = "Z"
+            states = {"S": state, "Z": {"Type": "Pass", "End": True}, "R": {"Type": "Pass", "Result": "recovered", "ResultPath": "$.r", "End": True}}
+            # C03-F6 (open): a Map re-entered for a later batch fails with its own re-entry entry still on the Branch stack;
+            # unhandled at the top level the execution just fails, every other variant is a witness of the finding
+            late = {"finding": "C03-F6"} if name == "maplatebatch-IF" else {}
+            out.append(S("errsite-%s%s" % (name, tag), {"StartAt": "S", "States": states}, data, {"f1": [("ok",)]}, {"f1": 10},
+                         extra=dict({"n_rand": 1}, **(late if tag else {}))))
+            if name in inbranch and tag != "-retry":
+                m = {"StartAt": "P", "States": {"P": {"Type": "Parallel", "End": True, "Branches": [
+                    {"StartAt": "S", "States": json.loads(json.dumps(states))},
+                    {"StartAt": "SB", "States": {"SB": T("fslow")}}]}}}
+                out.append(S("errsite-%s%s-inbranch" % (name, tag), m, data, {"f1": [("ok",)], "fslow": [("ok",)]}, {"f1": 10, "fslow": 60},
+                             extra=dict({"n_rand": 2}, **late)))
+    out.append(S("errsite-succeed-IP", {"StartAt": "S", "States": {"S": {"Type": "Succeed", "InputPath": "$.nope"}}}, data, extra={"n_rand": 1}))
     return out
 
 
@@ -304,6 +368,12 @@ def fan_witnesses():
                              {"fa": [("err", "EA", "m"), ("ok",)], "fx": [("ok",)]}, {"fa": 5, "fx": 400},
                              extra={"finding": "C06-F6", "errors": ["EA"]}))
     return out
+
+
+def open_witnesses(prop):
+    """the scenarios that witness an open finding of `prop` (run by that property's check only, and classified; they join
+    the shared corpus once the finding is fixed)"""
+    return [w for w in error_sites() if w.extra.get("finding", "").startswith(prop + "-") and finding_status(w.extra["finding"]) == "open"]
 
 
 def finding_status(fid):
@@ -546,7 +616,7 @@ def hist_line(hist):
 
 
 def run_property(chk, prop, laws, quick_gen=300, thorough_gen=4000, scns=None, n_rand=None, expect=None, rule=None,
-                 skip_multi=True):
+                 skip_multi=True, extra_scns=()):
     """run the scenario corpus x schedules with the monitor; report only the laws of `prop`"""
     quick = chk.tier == "quick"
     chk.lean_stage()
@@ -557,6 +627,7 @@ def run_property(chk, prop, laws, quick_gen=300, thorough_gen=4000, scns=None, n
         simmod.Sim.quiescent_or_idle = quiescent_or_idle
     if scns is None:
         scns = corpus(chk.rng, quick) + generated(chk.rng, quick_gen if quick else thorough_gen, 2)
+    scns = list(scns) + list(extra_scns)
     if n_rand is None:
         n_rand = 4 if quick else 40
     lines, line_meta = [], []
@@ -565,7 +636,8 @@ def run_property(chk, prop, laws, quick_gen=300, thorough_gen=4000, scns=None, n
     fan = prop == "C06"
     for scn in scns:
         hand = not scn.name.startswith("gen")
-        scheds = ["canonical"] + ["random"] * (n_rand if hand else 1)
+        # (a sequential machine has one schedule up to heartbeat placement: its scenarios ask for fewer random ones)
+        scheds = ["canonical"] + ["random"] * (min(n_rand, scn.extra.get("n_rand", n_rand)) if hand else 1)
         if prop == "C11" and hand and scn.extra.get("fail_payload") is None and "TimeoutSeconds" not in scn.machine \
                 and not scn.name.startswith("oversize"):
             # the same over a Redis-backed store shared by two engine instances (each its own client): the record and the
@@ -695,7 +767,10 @@ def run_property(chk, prop, laws, quick_gen=300, thorough_gen=4000, scns=None, n
                     line_meta.append(("notes", case, [n["detail"]["status"] for n in mon.notes]))
             s.close()
     # --- C06.matches_fan_protocol: the protocol model, run on the abstracted inputs of every run, against what the engine did
-    classify_for = fan_protocol_stage(chk, pending_runs) if fan else (lambda pr: None)
+    # a run of a scenario that is the witness of an open finding is explained by that finding (and by nothing else)
+    by_tag = lambda pr: ((lambda f, case, impl, model: f["id"] == pr["scn"].extra["finding"])
+                         if pr is not None and pr["scn"].extra.get("finding") else None)
+    classify_for = fan_protocol_stage(chk, pending_runs) if fan else by_tag
     # --- outcome laws that need the reference semantics: one batched driver call
     mlines = [pr["mline"] for pr in pending_runs if pr["mline"]]
     # the schedules of one scenario mostly ask the same question (same machine, input and worker answers): asked once
@@ -749,7 +824,7 @@ def run_property(chk, prop, laws, quick_gen=300, thorough_gen=4000, scns=None, n
     for oc, case in ordered_cases:
         run_of[id(oc)] = run_of.get(id(case))
     for a, (kind, case, extra) in zip(answers, line_meta):
-        classify = classify_for(run_of.get(id(case))) if fan else None
+        classify = classify_for(run_of.get(id(case)))
         parts = a.split("\t")
         chk.cov["evaluations"] += 1
         if parts[0] != "ok":
